@@ -30,7 +30,10 @@
 (*                    requeue / kill under the per-container latch uuidOp  *)
 (* Environment                                                             *)
 (*   UserCancel, UserHold, ProcSetRunning, ProcFinalize, ProcEnd,          *)
-(*   ProcCrash, VMBoot, VMBreak, OpSetIB, Restart                          *)
+(*   ProcCrash, VMBoot, VMBreak, OpSetIB (management API hold / drain /    *)
+(*   run), OpKillInstance (management API kill), Restart.  Not modelled:   *)
+(*   the instance tags through which idle behaviour survives a restart are *)
+(*   written asynchronously; here the idle behaviour simply persists.      *)
 (*                                                                         *)
 (* The contract's variables (api, procs, ib, lk, lkNext, pass, ever, pend, mode) are carried as   *)
 (* ghost state; model actions apply the contract's *Eff operators (never   *)
@@ -101,6 +104,8 @@ AnyUnknown == \E w \in Wk : wk[w].st = "unknown"
 FreeSlots == {w \in Wk : wk[w].st = "absent" /\ ~vmx[w].exists}
 AtQuota == FreeSlots = {}
 Ours(c) == api[c].state \in {"Locked", "Running"}
+
+ShutdownWk(w) == [wk EXCEPT ![w].st = "shutdown"]
 
 \* pool.KillContainer's side effect: rr.Kill on the runner of c (the goroutine is `killing`)
 KillSide(c) == [w \in Wk |-> IF c \in Runners(w) THEN killing[w] \cup {c} ELSE killing[w]]
@@ -183,11 +188,21 @@ OpSetIB(w, b) ==
     /\ last' = [NoLast EXCEPT !.e = "setib", !.w = w, !.s = b] /\ H("opsetib", 0, w, b)
     /\ UNCHANGED <<qv, pv, sv, ov, kf>>
 
+\* operator: management API "kill instance": the worker is shut down whatever it is doing
+\* (Pool.KillInstance -> wkr.shutdown(); its crunch-run processes die when the instance is destroyed)
+OpKillInstance(w) ==
+    /\ bud.opib > 0 /\ wk[w].st \notin {"absent", "shutdown"}
+    /\ wk' = ShutdownWk(w) /\ dirty' = dirty \cup {w}
+    /\ bud' = [bud EXCEPT !.opib = @ - 1]
+    /\ Ev("none", 0, w) /\ H("opkill", 0, w, "")
+    /\ UNCHANGED <<dcvars, qv, exitedP, probing, killing, broken, vmx, sv, ov, kf>>
+
 ------------------------------------------------------------------------------
 (* Queue cache: container.Queue.Update *)
 
-\* what a poll returns for c: ours, or Queued with priority > 0, or already cached (fetched by UUID)
-Polled(c) == IF Ours(c) \/ (api[c].state = "Queued" /\ api[c].prio > 0) \/ q[c].in
+\* what a poll returns for c: ours, or Queued with priority > 0, or cached and not yet final there (fetched by UUID)
+Polled(c) == IF Ours(c) \/ (api[c].state = "Queued" /\ api[c].prio > 0)
+                \/ (q[c].in /\ q[c].state \notin {"Complete", "Cancelled"})      \* final entries are not re-fetched: dropped
              THEN [in |-> TRUE, state |-> api[c].state, prio |-> api[c].prio] ELSE NoEnt
 
 \* Timing assumption (the only one): the answer to an API call of the dispatcher is delivered
@@ -233,7 +248,6 @@ UpdAtomic ==
 ------------------------------------------------------------------------------
 (* Pool *)
 
-ShutdownWk(w) == [wk EXCEPT ![w].st = "shutdown"]
 
 ProbeStart(w) ==
     /\ wk[w].st \in {"unknown", "booting", "idle", "running"} /\ ~probing[w].on
@@ -587,7 +601,8 @@ ApiResp(c) ==
 ------------------------------------------------------------------------------
 EnvNext == \/ \E c \in Ctrs : UserCancel(c) \/ UserHold(c)
            \/ \E w \in Wk, c \in Ctrs : ProcSetRunning(w, c) \/ ProcFinalize(w, c) \/ ProcEnd(w, c) \/ ProcCrash(w, c)
-           \/ \E w \in Wk : VMBoot(w) \/ VMBreak(w) \/ OpSetIB(w, "hold") \/ OpSetIB(w, "drain")
+           \/ \E w \in Wk : VMBoot(w) \/ VMBreak(w) \/ OpSetIB(w, "hold") \/ OpSetIB(w, "drain") \/ OpSetIB(w, "run")
+                            \/ OpKillInstance(w)
            \/ Restart
 
 PoolNext == \/ UpdStart \/ UpdEnd \/ UpdAtomic
